@@ -19,6 +19,14 @@ LEVEL = {
             "latest revision is unhealthy); the closed-loop bound (completion within 2n+4 syncs under a fair environment, pruning to one revision) is checked on whole rollouts of "
             "the real controller, not proved: partial", NOTE_SYNC + "; not proved: the induction over rounds with the API server and the fair environment in the loop",
             "Lean 4 proof (per-sync progress lemmas) + whole-rollout correspondence runs"),
+    "C15": ("Lean theorems about the model of the customize manager: selection type table, what a rule lists is what the trigger predicate accepts (listed => triggers), "
+            "invalid mixes / foreign namespaces / unknown resources are errors, one hook request per (UID, generation) while cached; every real sync with a customize hook is "
+            "replayed against the model and its related map compared with a selection computed from the statement; related-object events are delivered to the real handlers "
+            "and every selected object must wake its parent", NOTE_SYNC, "Lean 4 proof over a hand-written model + trace-replay and event correspondence checks"),
+    "C14": ("Lean theorems: for every event and every cache with unique keys, the handler models enqueue exactly the parents named by a declarative specification "
+            "(soundness and completeness per handler, composite and decorator; replays silent; unadmitted parents never queued; a controlled child wakes at most one parent); "
+            "the real handlers are called with generated events and their queue contents compared with the model and judged by the specification", NOTE_SYNC,
+            "Lean 4 proof over a hand-written model + event correspondence check"),
     "C01": ("Lean theorems: at a fixpoint (every desired child observed and already equal to its merged state, nothing undesired) ManageChildren issues no request, for every update "
             "method; one more application of the same desired state is a no-op (from C05 idempotence); real convergence scenarios (9 syncs from generated cluster contents, fresh "
             "caches, fair environment) are replayed sync by sync against the model and judged for quiescence, owned = desired and field values; convergence itself is observed, not proved: partial",
